@@ -49,6 +49,8 @@ func runConformance(repo, verif string, n int, timeout, par int) int {
 	groups := map[string]*group{}
 	var order []string
 	total := 0
+	var axioms []map[string]interface{}
+	axiomBad := 0
 	lit := func(s string) string {
 		if s == "true" || s == "false" {
 			return s
@@ -60,6 +62,22 @@ func runConformance(repo, verif string, n int, timeout, par int) int {
 	}
 	for _, l := range strings.Split(string(out), "\n") {
 		l = strings.TrimSpace(l)
+		if strings.HasPrefix(l, "AXIOM|") {
+			// a theory axiom sampled on the real code: name | assumed (yes/no/info) | cases | counterexamples
+			f := strings.Split(l, "|")
+			if len(f) == 5 {
+				ax := map[string]interface{}{"axiom": f[1], "assumed_by_the_theory": f[2], "cases": f[3], "counterexamples": f[4]}
+				axioms = append(axioms, ax)
+				if f[2] == "yes" && f[4] != "0" {
+					fmt.Printf("CONFORMANCE-MISMATCH theory axiom: %s (%s counterexamples in %s cases)\n", f[1], f[4], f[3])
+					axiomBad++
+				}
+				if f[2] == "no" && f[4] == "0" {
+					fmt.Printf("conformance: note: the axiom not assumed (%s) met no counterexample in %s cases\n", f[1], f[3])
+				}
+			}
+			continue
+		}
 		if !strings.HasPrefix(l, "CONF|") {
 			continue
 		}
@@ -127,7 +145,7 @@ func runConformance(repo, verif string, n int, timeout, par int) int {
 	outDir := filepath.Join(verif, "out", "conformance")
 	os.RemoveAll(outDir)
 	solveAll(outDir, results, timeout, par)
-	bad := 0
+	bad := axiomBad
 	obls := 0
 	for _, r := range results {
 		if r.Err != "" {
@@ -145,8 +163,11 @@ func runConformance(repo, verif string, n int, timeout, par int) int {
 			}
 		}
 	}
-	confSummary = map[string]interface{}{"level": "bounded test of the trusted sdk.Dec / sdk.Int prelude contracts (A-DEP), not proof", "dependency_functions": len(order), "observed_results": total, "solver_queries": obls, "mismatches": bad, "operands_per_function": n}
+	confSummary = map[string]interface{}{"level": "bounded test of the trusted sdk.Dec / sdk.Int prelude contracts (A-DEP), not proof", "dependency_functions": len(order), "observed_results": total, "solver_queries": obls, "mismatches": bad, "operands_per_function": n, "theory_axioms_sampled": axioms}
 	fmt.Printf("conformance: %d observed results of %d dependency functions checked against their prelude contracts in %d solver queries, %d mismatches\n", total, len(order), obls, bad)
+	for _, ax := range axioms {
+		fmt.Printf("conformance: theory axiom sampled on the real decoder: %s  [assumed: %s]  %s counterexamples in %s cases\n", ax["axiom"], ax["assumed_by_the_theory"], ax["counterexamples"], ax["cases"])
+	}
 	if bad > 0 {
 		return 1
 	}
